@@ -190,8 +190,34 @@ func (checkSchema) checkCompatibilityOfConstraints(node schema.Node) {
 	}
 	_, isMixedValue := node.(*schema.MixedValueNode)
 
+	// Without the "type" rule the rule-set describes values of some JSON type, and
+	// every rule of it has to be usable for that type ({min: 1, minLength: 1} isn't
+	// usable for any). These are the JSON types all the rules seen so far can be
+	// used for.
+	var possibleTypes []json.Type
+	if isMixed {
+		for _, t := range json.AllTypes {
+			if t != json.TypeMixed { // no value has this type
+				possibleTypes = append(possibleTypes, t)
+			}
+		}
+	}
+
 	err := node.ConstraintMap().Each(func(k constraint.Type, v constraint.Constraint) error {
-		if !v.IsJsonTypeCompatible(node.Type()) && !isMixed && !isMixedValue {
+		if isMixed {
+			left := make([]json.Type, 0, len(possibleTypes))
+			for _, t := range possibleTypes {
+				if v.IsJsonTypeCompatible(t) {
+					left = append(left, t)
+				}
+			}
+			if len(left) == 0 {
+				return errors.Format(errors.ErrUnexpectedConstraint, v.Type().String(), possibleTypes[0].String())
+			}
+			possibleTypes = left
+			return nil
+		}
+		if !v.IsJsonTypeCompatible(node.Type()) && !isMixedValue {
 			return errors.Format(errors.ErrUnexpectedConstraint, v.Type().String(), node.RealType())
 		}
 		return nil
